@@ -215,11 +215,20 @@ fn build_residual(rc: &ResCase) -> Result<Residual, String> {
         r[t] = (t as u32).wrapping_mul(2654435761) & ((1u32 << p) - 1);
         q[t] = match rc.qpat {
             0 => 0,
-            1 => 1,
+            1 | 6 | 7 => 1,
             4 => 1 << 16,
             5 => ((1u64 << 32) / rc.n as u64) as u32,
             _ => 0,
         };
+    }
+    // entries in warm-up positions (the constructor has to refuse them, or count what it writes): a
+    // quotient with a zero remainder, a remainder with a zero quotient
+    for t in 0..rc.warmup {
+        match rc.qpat {
+            6 => q[t] = 3,
+            7 => r[t] = 1,
+            _ => {}
+        }
     }
     let last = rc.n - 1;
     let lim = (u32::MAX as usize / rc.n) as u32;
@@ -249,7 +258,10 @@ fn residual_grid(thorough: bool) -> Vec<ResCase> {
                 }
                 for pmode in 0..2u8 {
                     for p in 0..=14u8 {
-                        for qpat in 0..6u8 {
+                        for qpat in 0..8u8 {
+                            if qpat >= 6 && warmup == 0 {
+                                continue;
+                            }
                             if !thorough && qpat >= 2 && !(p == 0 || p == 7 || p == 14) {
                                 continue;
                             }
@@ -292,7 +304,7 @@ fn run_residual_grid(rep: &Arc<Report>, thorough: bool, only: Option<ResCase>) {
             }
         },
     );
-    rep.add_rule("Residual::new grid: block size{64,192,4096,32767} x partition order 0..=6 (dividing) x warm-up{0,1,4,24} x Rice parameter 0..=14 uniform/alternating x quotient patterns{all 0, all 1, one entry just below / just above the 2^32 SIMD-sum switch, true sum above 2^32, entries whose 32-bit sum wraps to zero}; giant residuals go to the counting sink only");
+    rep.add_rule("Residual::new grid: block size{64,192,4096,32767} x partition order 0..=6 (dividing) x warm-up{0,1,4,24} x Rice parameter 0..=14 uniform/alternating x quotient patterns{all 0, all 1, one entry just below / just above the 2^32 SIMD-sum switch, true sum above 2^32, entries whose 32-bit sum wraps to zero, a quotient / a remainder in the warm-up positions (refused, or counted as written)}; giant residuals go to the counting sink only");
 }
 
 fn header_numbers() -> Vec<(bool, u64)> {
